@@ -108,6 +108,16 @@ def all_maps():
             mm = mk("optpos:%s:xor%d" % (pos, x), fxor=x, fperm=PERMS[x % 6])
             mm["optpos"] = pos
             maps.append(mm)
+    # the answer (rcode / sections) as a concretization dimension; concrete types A/AAAA in both orders
+    answers = {"nxdomain": {"rc": 3, "tc": False, "nan": 0, "ttls": [300], "opt": False},
+               "nxdomain-bare": {"rc": 3, "tc": False, "nan": 0, "ttls": [], "opt": False},
+               "nodata": {"rc": 0, "tc": False, "nan": 0, "ttls": [300], "opt": False},
+               "answer+additional": {"rc": 0, "tc": False, "nan": 1, "ttls": [300, 600, 900], "opt": True}}
+    for tag, r in answers.items():
+        for ttag, ty in (("a-aaaa", {"t1": 1, "t2": 28, "t3": 16}), ("aaaa-a", {"t1": 28, "t2": 1, "t3": 16}), ("mod256", {"t1": 1, "t2": 257, "t3": 513})):
+            mm = mk("answer:%s:%s" % (tag, ttag), types=ty)
+            mm["resp"] = r
+            maps.append(mm)
     # everything adversarial at once
     maps.append(mk("combo", names={"n1": NAME_PAIRS[2][1], "n2": NAME_PAIRS[2][2]}, types={"t1": 1, "t2": 257, "t3": 513},
                    classes={"c1": 1, "c2": 257}, fxor=5, fperm=[2, 0, 1]))
